@@ -1,7 +1,7 @@
 (** The C15 theorems (stated again, by name only, in Props/C15.v). *)
 From Coq Require Import Strings.String.
 From Coq Require Import List Bool NArith ZArith Lia.
-From DV Require Import Common.Res Common.Str Generated.T_extract Extract.Model Extract.ProofsStr Extract.Spec
+From DV Require Import Common.Res Common.Str Common.PyNum Generated.T_extract Extract.Model Extract.ProofsStr Extract.Spec
   Extract.ProofsDict Extract.ProofsLoop Extract.ProofsInj.
 Import ListNotations.
 Local Open Scope N_scope.
@@ -260,7 +260,7 @@ Theorem values_conversion cfg :
         get_elem_value cfg (i, VMulti cl l) = Ok (VMulti CList l') <->
         Forall2 (fun a b => conv_apply (c_get_text cfg) c a = Ok b) l l')) /\
   (* float() and int() on numbers keep the number and fix the class *)
-  (forall gt c tok, conv_apply gt CvFloat (VNum c tok) = Ok (VNum CFloat tok)) /\
+  (forall gt c x tok, conv_apply gt CvFloat (VNum c x tok) = Ok (VNum CFloat x tok)) /\
   (forall gt c z, conv_apply gt CvInt (VInt c z) = Ok (VInt CInt z)) /\
   (forall gt c s, conv_apply gt CvStr (VStr c s) = Ok (VStr CStr s)).
 Proof.
@@ -293,25 +293,38 @@ Proof. split; reflexivity. Qed.
 
 Theorem values_default_numeric cfg :
   c_convs cfg = default_conversions ->
-  (* DS, one value: the float *)
-  (forall i c tok, e_vr i = lit "DS" -> e_vm i = 1%nat ->
-     get_elem_value cfg (i, VNum c tok) = Ok (VNum CFloat tok)) /\
-  (* IS, one value: the int *)
+  (* DS, one value: a float with the value of the element; when the element carries the text [s] it was made
+     from and its value is float(s) (pydicom; checked on every generated case), the result is float(s) *)
+  (forall i c x tok, e_vr i = lit "DS" -> e_vm i = 1%nat ->
+     get_elem_value cfg (i, VNum c x tok) = Ok (VNum CFloat x tok)) /\
+  (forall i c x tok s, e_vr i = lit "DS" -> e_vm i = 1%nat -> e_raw i = Some s -> py_float s = Ok x ->
+     exists y tok', get_elem_value cfg (i, VNum c x tok) = Ok (VNum CFloat y tok') /\ py_float s = Ok y) /\
+  (* IS, one value: the int; int(s) when the element carries its text *)
   (forall i c z, e_vr i = lit "IS" -> e_vm i = 1%nat ->
      get_elem_value cfg (i, VInt c z) = Ok (VInt CInt z)) /\
-  (* DS / IS with VM > 1: the list of floats / ints, same length, same order *)
-  (forall i cl toks, e_vr i = lit "DS" -> (1 < e_vm i)%nat ->
-     get_elem_value cfg (i, VMulti cl (map (VNum CDs) toks)) = Ok (VMulti CList (map (VNum CFloat) toks))) /\
+  (forall i c z s, e_vr i = lit "IS" -> e_vm i = 1%nat -> e_raw i = Some s -> py_int s = Ok z ->
+     exists y, get_elem_value cfg (i, VInt c z) = Ok (VInt CInt y) /\ py_int s = Ok y) /\
+  (* DS / IS with VM > 1: the list of floats / ints, same length, same order, same values *)
+  (forall i cl xs, e_vr i = lit "DS" -> (1 < e_vm i)%nat ->
+     get_elem_value cfg (i, VMulti cl (map (fun p => VNum CDs (fst p) (snd p)) xs))
+     = Ok (VMulti CList (map (fun p => VNum CFloat (fst p) (snd p)) xs))) /\
   (forall i cl zs, e_vr i = lit "IS" -> (1 < e_vm i)%nat ->
      get_elem_value cfg (i, VMulti cl (map (VInt CIs) zs)) = Ok (VMulti CList (map (VInt CInt) zs))).
 Proof.
   intros Hc. destruct default_conversions_numeric as [Hds His].
-  split; [|split; [|split]].
-  - intros i c tok Hvr Hvm. rewrite (gev_single cfg i _ CvFloat); [reflexivity | rewrite Hvr; reflexivity | exact Hvm | rewrite Hvr, Hc; exact Hds | discriminate].
-  - intros i c z Hvr Hvm. rewrite (gev_single cfg i _ CvInt); [reflexivity | rewrite Hvr; reflexivity | exact Hvm | rewrite Hvr, Hc; exact His | discriminate].
-  - intros i cl toks Hvr Hvm. rewrite (gev_multi cfg i cl _ Hvm). rewrite Hvr, Hc, Hds.
-    assert (mapM (conv_apply (c_get_text cfg) CvFloat) (map (VNum CDs) toks) = Ok (map (VNum CFloat) toks)) as ->; [|reflexivity].
-    induction toks as [|t toks IH]; simpl; [reflexivity | rewrite IH; reflexivity].
+  assert (D1 : forall i c x tok, e_vr i = lit "DS" -> e_vm i = 1%nat ->
+     get_elem_value cfg (i, VNum c x tok) = Ok (VNum CFloat x tok)).
+  { intros i c x tok Hvr Hvm. rewrite (gev_single cfg i _ CvFloat); [reflexivity | rewrite Hvr; reflexivity | exact Hvm | rewrite Hvr, Hc; exact Hds | discriminate]. }
+  assert (I1 : forall i c z, e_vr i = lit "IS" -> e_vm i = 1%nat ->
+     get_elem_value cfg (i, VInt c z) = Ok (VInt CInt z)).
+  { intros i c z Hvr Hvm. rewrite (gev_single cfg i _ CvInt); [reflexivity | rewrite Hvr; reflexivity | exact Hvm | rewrite Hvr, Hc; exact His | discriminate]. }
+  split; [exact D1|]. split; [|split; [exact I1|split; [|split]]].
+  - intros i c x tok s Hvr Hvm _ Hs. exists x, tok. split; [apply D1; assumption | exact Hs].
+  - intros i c z s Hvr Hvm _ Hs. exists z. split; [apply I1; assumption | exact Hs].
+  - intros i cl xs Hvr Hvm. rewrite (gev_multi cfg i cl _ Hvm). rewrite Hvr, Hc, Hds.
+    assert (mapM (conv_apply (c_get_text cfg) CvFloat) (map (fun p => VNum CDs (fst p) (snd p)) xs)
+            = Ok (map (fun p => VNum CFloat (fst p) (snd p)) xs)) as ->; [|reflexivity].
+    induction xs as [|t xs IH]; simpl; [reflexivity | rewrite IH; reflexivity].
   - intros i cl zs Hvr Hvm. rewrite (gev_multi cfg i cl _ Hvm). rewrite Hvr, Hc, His.
     assert (mapM (conv_apply (c_get_text cfg) CvInt) (map (VInt CIs) zs) = Ok (map (VInt CInt) zs)) as ->; [|reflexivity].
     induction zs as [|t zs IH]; simpl; [reflexivity | rewrite IH; reflexivity].
